@@ -10,7 +10,10 @@ terms on every run.  Two kinds of obligations:
      range); the epilogue, from an arbitrary in-range state, returns the reference's final
      value.  Together: equality with the reference for byte strings of any length.
 (ii) whole function ("<fn>/whole/N"): the function unrolled on N symbolic bytes equals the
-     reference for all 256^N inputs (N <= 4 quick, N <= 8 thorough).
+     reference for all 256^N inputs: crc16 N <= 4 (quick) / N <= 8 (thorough); crc64 N <= 1 /
+     N <= 2 only -- the XOR-heavy 64-bit equivalence is not decided by z3 beyond that (measured:
+     N = 2 takes 14-40 s, N = 3 and 4 `unknown` at 120 s); for crc64 the any-length claim rests
+     on the step obligation.  Thorough: an `unsat` sample is re-decided by cvc5 and z3 4.8.12.
 
 The reference is an independent MSB-first shift register on BitVec(16) / BitVec(64)
 (poly 0x1021 / 0x42F0E1EBA9EA3693, init and xorout all ones, no reflection); a table-driven
@@ -38,7 +41,7 @@ ASSUMPTIONS = [
     "step obligation: loop state = the variables assigned in the loop body that are live on loop entry "
     "(crc16: crc in [0,2^16); crc64: crctop, crcbot in [0,2^32)); a counterexample of the step is concretised "
     "to a whole input of 3 / 9 bytes before it is reported",
-    "whole-function obligations are bounded: N <= 4 bytes (quick), N <= 8 bytes (thorough)",
+    "whole-function obligations are bounded: crc16 N <= 4 bytes (quick) / 8 (thorough); crc64 N <= 1 (quick) / 2 (thorough)",
 ]
 
 SPEC = {
@@ -316,14 +319,15 @@ def replay(vals, params):
 
 def obligations(tier):
     nmax = 4 if tier == "quick" else 8
+    x = dict(xcheck=(tier == "thorough"), xcheck_max=3)
     obs = []
     for which in ("crc16", "crc64"):
-        obs.append(Ob("%s/step" % which, A.run_obligation(ob_step, "QF_BV", 120000), params=dict(fn=which), kind="e2", replay=replay,
+        obs.append(Ob("%s/step" % which, A.run_obligation(ob_step, "QF_BV", 120000), params=dict(x, fn=which), kind="e2", replay=replay,
                       budget=120, bounds=dict(state="arbitrary in-range register", byte="arbitrary", length="any (inductive)")))
         obs.append(Ob("%s/check-value" % which, A.run_obligation(ob_check_value, "QF_BV"), params=dict(fn=which), kind="e2",
                       replay=replay, budget=60, bounds=dict(input="b'123456789' (concrete catalogue vector)")))
         for n in range(nmax if which == "crc16" else (1 if tier == "quick" else 2), -1, -1):
-            obs.append(Ob("%s/whole/%d" % (which, n), A.run_obligation(ob_whole, "QF_BV", 120000), params=dict(fn=which, n=n), kind="e2",
+            obs.append(Ob("%s/whole/%d" % (which, n), A.run_obligation(ob_whole, "QF_BV", 120000), params=dict(x, fn=which, n=n), kind="e2",
                           replay=replay, budget=600,
                           bounds=dict(bytes=n, values="all 256^%d byte strings" % n)))
     return obs
